@@ -120,6 +120,18 @@ def run(res, args):
                         "GetRegisters are compared with the model; the combined view is also judged directly (ascending, stable, same elements); "
                         "non-trivial = non-empty final list" % (3 if res.tier == "quick" else 4),
                    samples=lines[:: max(1, len(lines) // 5)][:5], history_lengths=hist, disagreements_checked=mism, judge_failures=bad)
+    # two lists of the same product from two lookups are two lists (appends to the one never show in the other)
+    rc, tout = common.sh("timeout 300 %s reglisttwin" % common.GVRUN)
+    tm = re.search(r"TWIN-SUMMARY checks=(\d+) failures=(\d+)", tout)
+    if rc != 0 or not tm:
+        raise Broken("gvrun reglisttwin failed", tout[-2000:])
+    res.cov["twin_list_checks"] = int(tm.group(1))
+    for l in tout.splitlines():
+        if l.startswith("TWIN-FAIL"):
+            res.add_violation(l[10:], key="C16:twin:" + l[10:90], input=l[10:],
+                              replay="a, _ := GetRegisterListByProduct(p); b, _ := GetRegisterListByProduct(p); append a block to a, then another to b; compare a with base ++ its block")
+            if len(res.violations) > 5:
+                break
     obs_by = {l.split(" ", 1)[0]: l for l in open(ob).read().splitlines()}
     for l in out.splitlines():
         if l.startswith("JUDGE-FAIL"):
